@@ -115,6 +115,7 @@ func child(args []string) int {
 		done := make(chan core.Result, 1)
 		go func() {
 			core.Log.Reset()
+			core.ResetHangs()
 			done <- p.Run(sc)
 		}()
 		var res core.Result
